@@ -46,13 +46,14 @@ var c03Lib = []string{
 	"nested = (n) -> {\nfor i <- fromto(0, n) {\nfor j <- fromto(0, n) {\nif i * j == 6 return [i, j]\n}\n}\n}",
 	"ylds = () -> {\nv = 1\nyield () -> v\nv = 2\nyield () -> v\nv = 3\n}",
 	"collect = () -> {\nfs = []\nfor f <- ylds() fs = fs + [f]\nfa = fs[0]\nfb = fs[1]\n[fa(), fb()]\n}",
+	"pick = (n) -> {\nif n > 0 a = n * 3\nb = n + 1\nif n > 1 c = n\n[a, b, c]\n}",
 	"map = (f, it) -> for e <- it() yield f(e)",
 	"itclos = (k, n) -> {\ns = 0\nfor v <- map((x) -> x + k, () -> fromto(0, n)) s = s + v\ns\n}",
 	"itpick = (a, b) -> {\nr = []\nfor f <- elems([() -> a, () -> a + b]) r = r + [f]\nfa = r[0]\nfb = r[1]\n[fa(), fb()]\n}",
 }
 
 func c03Calls(t *rapid.T) (call, other string, heavy bool) {
-	kind := rapid.IntRange(0, 14).Draw(t, "call")
+	kind := rapid.IntRange(0, 15).Draw(t, "call")
 	mk := func() (string, bool) {
 		n := func(hi int) int { return rapid.IntRange(0, hi).Draw(t, "arg") }
 		d := rapid.SampledFrom([]int{0, 1, 40, 130, 300, 1000}).Draw(t, "deep")
@@ -85,6 +86,9 @@ func c03Calls(t *rapid.T) (call, other string, heavy bool) {
 			return fmt.Sprintf("itclos(%d, %d)", n(20), 1+n(4)), true
 		case 13:
 			return fmt.Sprintf("itpick(%d, %d)", n(20), n(20)), true
+		case 15:
+			// reads locals it may never have assigned: they must be nil, whatever was on the stack before
+			return fmt.Sprintf("pick(%d)", n(3)), true
 		default:
 			return fmt.Sprintf("app(twice(adder(%d)), %d) + sum(%d)", n(9), n(9), n(6)), true
 		}
@@ -125,8 +129,11 @@ func (c c03Case) placements() map[string][]string {
 	}
 	return map[string][]string{
 		// another activation of the same function earlier in the same statement (recycled iterator contexts)
-		"after-other-call":     {"{\nzo = [" + other + ", " + other + "]\n[" + f + "]\n}"},
-		"between-other-calls":  {"{\nzo = [" + other + "]\nzr = [" + f + "]\nzo = [" + other + "]\nzr + [" + f + "]\n}"},
+		"after-other-call":    {"{\nzo = [" + other + ", " + other + "]\n[" + f + "]\n}"},
+		"between-other-calls": {"{\nzo = [" + other + "]\nzr = [" + f + "]\nzo = [" + other + "]\nzr + [" + f + "]\n}"},
+		// every call depth from 0 to 300 in one session: each frame lands on slots earlier, shallower calls used
+		"depth-sweep": {"zd = (n) -> if n <= 0 " + f + " else zd(n - 1)", "zdo = (n) -> if n <= 0 " + other + " else zdo(n - 1)",
+			"{\nzr = []\nfor zi <- fromto(0, 300) {\nzo = [zdo(zi)]\nzr = zr + [zd(zi + 1)]\n}\nzr\n}"},
 		"wide-loop-after-loop": {wideLoop.String(), "{\nfor zq <- fromto(0, 2) zq\nwideloop()\n}"},
 		"top":                  {"[" + f + "]"},
 		"twice":                {"[" + f + ", " + f + "]"},
@@ -212,12 +219,16 @@ func allEqualTo(list, elem string) bool {
 	if inner == elem {
 		return true
 	}
-	for n := 2; n <= 6; n++ {
-		if inner == strings.TrimSuffix(strings.Repeat(elem+", ", n), ", ") {
-			return true
-		}
+	// n repetitions of elem separated by ", "
+	if len(elem) == 0 {
+		// the empty string renders as nothing
+		return strings.ReplaceAll(inner, ", ", "") == ""
 	}
-	return false
+	if (len(inner)+2)%(len(elem)+2) != 0 {
+		return false
+	}
+	n := (len(inner) + 2) / (len(elem) + 2)
+	return n >= 1 && inner == strings.TrimSuffix(strings.Repeat(elem+", ", n), ", ")
 }
 
 func c03Prop(rec *ev.Recorder) func(t *rapid.T) {
